@@ -595,6 +595,36 @@ impl Shape for Hosty {
     }
 }
 
+// ------------------------------------------------------------------------------------ 19 SubMiddle
+
+/// The command field declared in the middle: one option before it, two after it (field order is the author's
+/// business; the grammar is the same as with the command field last)
+#[derive(ArgParse)]
+#[cli(help_path = "c20")]
+pub struct SubMiddle {
+    #[cli(short = "v")]
+    pub v: bool,
+    #[cli(subcommand)]
+    pub cmd: Cmd,
+    #[cli(long = "level")]
+    pub level: Option<u8>,
+    #[cli(short = "q", long = "quiet")]
+    pub quiet: bool,
+}
+pub static SUB_MIDDLE: Spec = Spec {
+    name: "SubMiddle",
+    opts: &[o(Some("v"), None, Kind::Flag, Ty::Str), o(None, Some("level"), Kind::Opt, Ty::U8), o(Some("q"), Some("quiet"), Kind::Flag, Ty::Str)],
+    pos: &[],
+    sub: Some(SubSpec { optional: false, cmds: &CMD_CMDS }),
+    help: help_of::<SubMiddle>,
+};
+impl Shape for SubMiddle {
+    const SPEC: &'static Spec = &SUB_MIDDLE;
+    fn to_model(&self) -> Model {
+        Model { opts: vec![flag(self.v), opt(self.level.map(num)), flag(self.quiet)], pos: vec![], sub: Some(cmd_model(&self.cmd)) }
+    }
+}
+
 // ------------------------------------------------------------------------------------ 18 Entry
 
 include!("entry_struct.rs");
@@ -622,7 +652,7 @@ macro_rules! entry {
     };
 }
 
-pub static SHAPES: [ShapeEntry; 18] = [
+pub static SHAPES: [ShapeEntry; 19] = [
     entry!(ReqOpt, "shape-ReqOpt"),
     entry!(Aliases, "shape-Aliases"),
     entry!(Flags, "shape-Flags"),
@@ -641,6 +671,7 @@ pub static SHAPES: [ShapeEntry; 18] = [
     entry!(Cased, "shape-Cased"),
     entry!(Hosty, "shape-Hosty"),
     entry!(Entry, "shape-Entry"),
+    entry!(SubMiddle, "shape-SubMiddle"),
 ];
 
 pub fn shape_by_name(name: &str) -> Option<&'static ShapeEntry> {
